@@ -22,7 +22,7 @@ Markers (``mk_*`` / ``*_RE``)
     One conversation = the case's tables (verdicts, routes, fault plan, LLM overrides) plus the observation
     logs: ``trace`` (every rail/dialog action invocation: rail, turn, text seen, verdict given) and
     ``llm_calls`` (every prompt the ScriptedLLM received: turn, index in turn, task, prompt, answer,
-    temperature at start/end).  Its methods are the *policy* of the fakes and are meant to be overridden
+    temperature at start/end, and `messages` when the LLM input was a chat message list).  Its methods are the *policy* of the fakes and are meant to be overridden
     by later checks: ``rail_verdict`` (accept/reject/rewrite), ``should_fail`` (fault injection, C03),
     ``llm_answer`` (hostile outputs, C17), ``llm_latency`` (schedules, C15).
     The session in charge of the running request is found through the context variable ``CURRENT``
@@ -232,7 +232,9 @@ class Session:
     """Tables of one conversation + everything observed while it runs.
 
     case["turns"][t] keys used here: "route" (see ROUTES; ignored when dialog rails are off),
-    "in" / "out" / "ret" (verdict per rail: "accept" | "reject" | "rewrite"), "body" (tail of LLM texts).
+    "in" / "out" / "ret" (verdict per rail: "accept" | "reject" | "rewrite"), "body" (tail of LLM texts),
+    "repeat_llm" (s: the LLM's message texts of this turn repeat, verbatim, those it produced in turn s),
+    "umark" (index of the marker `UM{umark}Z` carried by "user" when the turn repeats the text of an earlier turn).
     case["faults"]  : [[action_name, k], ...]  the k-th invocation (0-based, per conversation) raises.
     case["llm_override"] : [[turn, call_index, text], ...]  returned verbatim instead of the scripted answer.
     """
@@ -247,6 +249,7 @@ class Session:
         self.faults = {(a, int(k)) for a, k in case.get("faults", [])}
         self.override = {(int(t), int(k)): text for t, k, text in case.get("llm_override", [])}
         self.in_flight = 0
+        self.message_texts = {}  # turn -> message texts produced by the scripted LLM in that turn (see message_text)
         self.seq = 0  # global order of rail invocations and LLM calls ("seq" in trace entries / call records)
 
     # ---- policy (override points) -------------------------------------------------------------
@@ -287,9 +290,9 @@ class Session:
         if task == "v2_user_intent":
             return "user expressed greeting" if route == "predef" else "user asked something else"
         if task == "v2_flow_continuation":
-            return f'bot provide answer\nbot action: bot say "{mk_llm(turn, k)} {body}"'
+            return f'bot provide answer\nbot action: bot say "{self.message_text(turn, k, body)}"'
         if task == "generate_bot_message":
-            return f'  "{mk_llm(turn, k)} {body}"'
+            return f'  "{self.message_text(turn, k, body)}"'
         if task in ("self_check_input", "self_check_output"):
             cat = "in" if task == "self_check_input" else "out"
             idx = self.cfg[cat].index("self")
@@ -300,7 +303,18 @@ class Session:
             )
             return "Yes" if verdict == "reject" else "No"
         # general / passthrough / anything else that asks for a message
-        return f"{mk_llm(turn, k)} {body}"
+        return self.message_text(turn, k, body)
+
+    def message_text(self, turn, k, body):
+        """Bot message text the LLM produces at call k of `turn`: a fresh text `LM{turn}C{k}Z body`, or - case feature
+        turns[turn]["repeat_llm"] = s - exactly the n-th message text produced in the earlier turn s (the LLM repeats
+        itself; the text then carries the marker of its first production and is checked material of `turn` again)."""
+        n = len(self.message_texts.get(turn, []))
+        src = self.turns[turn].get("repeat_llm") if turn < len(self.turns) else None
+        prev = self.message_texts.get(src, []) if src is not None else []
+        text = prev[n] if n < len(prev) else f"{mk_llm(turn, k)} {body}"
+        self.message_texts.setdefault(turn, []).append(text)
+        return text
 
     # ---- bookkeeping ---------------------------------------------------------------------------
     def tick(self):
@@ -367,6 +381,9 @@ def classify_prompt(prompt):
     return "general"
 
 
+_RAW_PROMPT = contextvars.ContextVar("vf_raw_prompt", default=None)
+
+
 class ScriptedLLM(LLM):
     """LLM whose completion is `Session.llm_answer(task, prompt, turn, k)`; records every call."""
 
@@ -382,11 +399,23 @@ class ScriptedLLM(LLM):
     def _identifying_params(self):
         return {}
 
+    async def agenerate_prompt(self, prompts, stop=None, callbacks=None, **kwargs):
+        # keep the un-flattened prompt value (chat messages in passthrough mode) for the call record
+        tok = _RAW_PROMPT.set(prompts[0] if prompts else None)
+        try:
+            return await super().agenerate_prompt(prompts, stop=stop, callbacks=callbacks, **kwargs)
+        finally:
+            _RAW_PROMPT.reset(tok)
+
     def _begin(self, prompt, stop):
         session, turn = current()
         k = len(session.calls_of_turn(turn))
         task = classify_prompt(prompt)
         rec = {"turn": turn, "k": k, "task": task, "prompt": prompt, "stop": stop, "t_start": self.temperature, "t_end": None, "answer": None, "seq": session.tick()}
+        raw = _RAW_PROMPT.get()
+        if raw is not None and hasattr(raw, "messages"):
+            # the LLM input was a message list (v1 passthrough mode): "prompt" is its flattened text, this is the list
+            rec["messages"] = [{"role": getattr(m, "type", "?"), "content": getattr(m, "content", None)} for m in raw.messages]
         session.llm_calls.append(rec)
         session.in_flight += 1
         return session, turn, k, task, rec
